@@ -283,4 +283,21 @@ theorem C03_dropped_import_is_self (cwd frm imp dir p b ff : Str) (fd td : List 
     (fun _ => hjs) hnp
   exact ⟨spec, himp, fun hsame => Path.same_file_only_self fd _ frm spec ff hfn hffs hffts hgood hsame⟩
 
+
+/-- **… and with ES-module imports**: the same file under any spelling yields `./ff.js`, and the test skips it. -/
+theorem C03_self_import_skipped_esm (cwd frm imp dir p b ff : Str) (fd : List Str)
+    (hdir : Path.parent frm = some dir) (hfn : Path.fileName frm = some (ff ++ Path.dotTs))
+    (hp : Path.absolute cwd imp = .ok p) (hb : Path.absolute cwd dir = .ok b)
+    (hpc : Path.components p = Comp.root :: Path.N (fd ++ [ff ++ Path.dotTs]))
+    (hbc : Path.components b = Comp.root :: Path.N fd)
+    (hff : ff ≠ []) (hffs : '/' ∉ ff)
+    (hts : Text.endsWith Path.dotTs ff = false) (hjs : Text.endsWith Path.dotJs ff = false) :
+    Path.importPath true cwd frm imp = some (.ok (['.', '/'] ++ ff ++ Path.dotJs)) ∧
+    Path.isSameFile frm (['.', '/'] ++ ff ++ Path.dotJs) = true :=
+  Path.self_import_skipped_esm cwd frm imp dir p b ff fd hdir hfn hp hb hpc hbc hff hffs hts hjs
+
+example : Path.importPath true "/w".toList "./bindings/x/../a/A.ts".toList "bindings//a/./A.ts".toList
+      = some (.ok "./A.js".toList) ∧
+    Path.isSameFile "./bindings/x/../a/A.ts".toList "./A.js".toList = true := by decide
+
 end TsRs
